@@ -57,6 +57,11 @@ enum Op {
     /// the path resolves to now must not be believed unless that device is
     /// itself trusted.
     SwapTrustedPath,
+    /// Four threads bump and observe their own files on trusted device A at
+    /// the same time (observe_file_time is try_update underneath), with
+    /// small injected delays before lock attempts, while this thread polls
+    /// the base time: it must never be seen to decrease.
+    ConcurrentObservers,
 }
 
 struct Fail {
@@ -93,6 +98,8 @@ struct Obs {
     scans_with_moved_path: u64,
     failed_registrations: u64,
     fifo_registrations: u64,
+    concurrent_observations: u64,
+    polls_during_concurrent_observers: u64,
 }
 
 struct World {
@@ -165,6 +172,7 @@ fn run_history(ops: &[Op], w: &mut World, obs: &mut Obs) -> Result<(), Fail> {
         // candidate change-times (device, ctime_ms) that THIS call may legitimately adopt
         let mut candidates: Vec<PathBuf> = Vec::new();
         let mut registering: Option<u64> = None;
+        let mut concurrent_ctimes: Vec<u64> = Vec::new();
         let step = |what: String| format!("step {} {:?}: {}", i, op, what);
         match *op {
             Op::Sleep(ms) => std::thread::sleep(std::time::Duration::from_millis(ms)),
@@ -308,6 +316,97 @@ fn run_history(ops: &[Op], w: &mut World, obs: &mut Obs) -> Result<(), Fail> {
                     }
                 }
             }
+            Op::ConcurrentObservers => {
+                if !trusted_before.contains(&w.dev_a) {
+                    continue;
+                }
+                use std::sync::atomic::{AtomicBool, AtomicU64, Ordering};
+                use std::sync::Arc;
+                // Delay injection through H3: half of the lock attempts and
+                // of the first loads are preceded by a short sleep, which
+                // widens any window between a staleness check and the commit.
+                vouched_time::verif_sync::set_callback(Some(Box::new(|ev: &vouched_time::verif_sync::Event| {
+                    thread_local! { static X: std::cell::Cell<u64> = const { std::cell::Cell::new(0x9E37_79B9_7F4A_7C15) }; }
+                    if ev.after {
+                        return;
+                    }
+                    let r = X.with(|x| {
+                        let mut v = x.get() ^ (ev.object as u64);
+                        v ^= v << 13;
+                        v ^= v >> 7;
+                        v ^= v << 17;
+                        x.set(v);
+                        v
+                    });
+                    if matches!(ev.op, vouched_time::verif_sync::Op::TryLock | vouched_time::verif_sync::Op::Lock) && r % 2 == 0 {
+                        std::thread::sleep(std::time::Duration::from_micros(50 + r % 400));
+                    }
+                })));
+                let done = Arc::new(AtomicBool::new(false));
+                let observed = Arc::new(AtomicU64::new(0));
+                let all_ctimes: Arc<std::sync::Mutex<Vec<u64>>> = Arc::new(std::sync::Mutex::new(Vec::new()));
+                let mut handles = Vec::new();
+                for t in 0..4u64 {
+                    let path = w.dir_a.join(format!("conc-{}.file", t));
+                    std::fs::write(&path, b"x").map_err(|e| Fail { sig: "harness-io".into(), what: e.to_string() })?;
+                    let observed = observed.clone();
+                    let all_ctimes = all_ctimes.clone();
+                    handles.push(std::thread::spawn(move || -> Result<(), String> {
+                        let mut flip = false;
+                        for _ in 0..30 {
+                            bump_ctime(&path, &mut flip).map_err(|e| e.to_string())?;
+                            let file = std::fs::File::open(&path).map_err(|e| e.to_string())?;
+                            if let Ok((ct, _)) = ctime_ms(&path) {
+                                all_ctimes.lock().unwrap().push(ct);
+                            }
+                            match catch(|| nfs_voucher::observe_file_time(&file)) {
+                                Err(p) => return Err(format!("observe_file_time panicked: {}", p)),
+                                Ok(Err(e)) => return Err(format!("observe_file_time failed: {}", e)),
+                                Ok(Ok(r)) => {
+                                    if let Some(pair) = r.1 {
+                                        if !pair_ok(&pair) {
+                                            return Err("observe_file_time returned a pair whose voucher does not vouch for its base".into());
+                                        }
+                                    }
+                                }
+                            }
+                            observed.fetch_add(1, Ordering::Relaxed);
+                            std::thread::sleep(std::time::Duration::from_micros(700));
+                        }
+                        Ok(())
+                    }));
+                }
+                let done2 = done.clone();
+                let mut last = base;
+                let mut verdict: Result<(), Fail> = Ok(());
+                let poller_deadline = std::time::Instant::now() + std::time::Duration::from_secs(20);
+                while !done2.load(Ordering::Relaxed) {
+                    let p = unlocked()?;
+                    obs.polls_during_concurrent_observers += 1;
+                    if p.0 < last && verdict.is_ok() {
+                        verdict = Err(Fail { sig: "base-decreased".into(), what: step(format!("while four threads observed fresh files concurrently, the base time went from {} back to {}", last, p.0)) });
+                    }
+                    last = last.max(p.0);
+                    if handles.iter().all(|h| h.is_finished()) || std::time::Instant::now() > poller_deadline {
+                        done.store(true, Ordering::Relaxed);
+                    }
+                }
+                for h in handles {
+                    match h.join() {
+                        Ok(Ok(())) => {}
+                        Ok(Err(e)) if verdict.is_ok() => verdict = Err(Fail { sig: "concurrent-observer".into(), what: step(e) }),
+                        _ => {}
+                    }
+                }
+                vouched_time::verif_sync::set_callback(None);
+                verdict?;
+                obs.concurrent_observations += observed.load(Ordering::Relaxed);
+                concurrent_ctimes = all_ctimes.lock().unwrap().clone();
+                let end = unlocked()?.0;
+                if end < last {
+                    return Err(Fail { sig: "base-decreased".into(), what: step(format!("after the concurrent observers finished the base time is {} although {} had been seen", end, last)) });
+                }
+            }
             Op::GetUnlocked => {
                 let p = unlocked()?;
                 if p.0 != base {
@@ -322,7 +421,8 @@ fn run_history(ops: &[Op], w: &mut World, obs: &mut Obs) -> Result<(), Fail> {
             return Err(Fail { sig: "base-decreased".into(), what: step(format!("base time went from {} back to {}", base, after)) });
         }
         if after != base {
-            let mut explained = false;
+            // (concurrent observers: any change-time one of their files had)
+            let mut explained = concurrent_ctimes.contains(&after);
             let mut seen = Vec::new();
             for c in &candidates {
                 if let Ok((ct, dev)) = ctime_ms(c) {
@@ -384,6 +484,9 @@ fn gen_ops(rng: &mut Rng) -> Vec<Op> {
         if i + 1 == trust_at && rng.chance(1, 4) {
             // a special file offered for registration before anything is trusted
             ops.push(Op::AddTrustedFifo(!a_first));
+        }
+        if i > trust_at + 1 && rng.chance(1, 40) {
+            ops.push(Op::ConcurrentObservers);
         }
         let op = match rng.below(12) {
             0..=4 => Op::Observe(files[rng.usize_below(files.len())]),
@@ -482,6 +585,8 @@ pub fn run(ctx: &mut Ctx) {
             ctx.feature_n("nfs.second_device_trusted", obs.second_device_trusted);
             ctx.feature_n("nfs.trusted_path_swapped_to_other_device", obs.path_swaps);
             ctx.feature_n("nfs.fifo_offered_for_registration_accepted", obs.fifo_registrations);
+            ctx.feature_n("nfs.observations_made_by_concurrent_threads", obs.concurrent_observations);
+            ctx.feature_n("nfs.base_time_polls_during_concurrent_observers", obs.polls_during_concurrent_observers);
             ctx.feature_n("nfs.fifo_offered_for_registration_refused", obs.failed_registrations);
             ctx.feature_n("nfs.refresh_failed_because_path_moved", obs.scans_with_moved_path);
             ctx.signature(mix(&[obs.base_moved.min(12), obs.untrusted_none.min(6), obs.old_trusted_no_move.min(3), obs.refreshed_by_get.min(3), obs.not_refreshed_by_get.min(3), obs.before_trust_calls.min(6), obs.second_device_trusted, obs.path_swaps.min(2), obs.scans_with_moved_path.min(2), (ops.len() / 8) as u64]));
